@@ -11,10 +11,13 @@ for f in conf:
     if f == "known_findings.json":
         ours = json.loads(sh("git", "show", "HEAD:known_findings.json").stdout)
         theirs = json.loads(sh("git", "show", br + ":known_findings.json").stdout)
-        seen = {(e["property"], e["key"]) for e in ours}
+        idx = {(e["property"], e["key"]): i for i, e in enumerate(ours)}
         for e in theirs:
-            if (e["property"], e["key"]) not in seen:
+            k = (e["property"], e["key"])
+            if k not in idx:
                 ours.append(e)
+            elif e["status"] == "fixed" and ours[idx[k]]["status"] == "open":
+                ours[idx[k]] = e
         json.dump(ours, open("known_findings.json", "w"), indent=1)
         sh("git", "add", f)
     elif f == "MANIFEST.json":
